@@ -64,7 +64,7 @@ def run(only=None):
             subprocess.run(['rsync', '-a', '--delete', '--exclude', 'target', '/repo/', copy + '/'], check=True)
             subprocess.run(['git', 'checkout', '-q', '--', '.'], cwd=copy)
         seeds = sorted(glob.glob(os.path.join(VERIF, 'seeded', '*', 'meta.json')))
-        props = sorted(set(json.load(open(m))['property'] for m in seeds))
+        props = sorted(set(json.load(open(m))['property'] for m in seeds if json.load(open(m)).get('property')))
         if only:
             props = [p for p in props if p == only]
         for prop in props:
@@ -78,6 +78,30 @@ def run(only=None):
                 bad += 1
         for m in seeds:
             meta = json.load(open(m))
+            if meta.get('harmless'):
+                # behaviour-preserving refactoring: no check that depends on the file may raise an alarm
+                f = meta.get('file') or ''
+                deps = (['C01', 'C02', 'C05', 'C07'] if f.startswith('src/util/date') or f.endswith('leap.rs') else
+                        ['C03', 'C06', 'C09'] if f.startswith('src/util/time') else
+                        ['C10', 'C15'] if f.endswith('offset.rs') else
+                        ['C03', 'C04'] if f == 'src/date.rs' else
+                        ['C03', 'C06', 'C10'] if f == 'src/datetime.rs' else
+                        ['C08'] if f == 'src/time.rs' else
+                        ['C17'] if f == 'src/cron.rs' else ['C18', 'C19'])
+                if only:
+                    deps = [p for p in deps if p == only]
+                for prop in deps:
+                    fresh()
+                    a = subprocess.run(['git', 'apply', os.path.join(os.path.dirname(m), 'patch.diff')], cwd=copy, capture_output=True, text=True)
+                    if a.returncode != 0:
+                        print('selftest %s: patch no longer applies' % meta['id'])
+                        break
+                    rc, out = run_check(prop, copy)
+                    ok = rc in (0, 2)
+                    print('selftest harmless %s (%s, %s): exit %d -> %s' % (meta['id'], meta.get('function'), prop, rc, 'ok' if ok else 'FALSE ALARM'))
+                    if not ok:
+                        bad += 1
+                continue
             if only and meta['property'] != only:
                 continue
             if meta['property'] == 'C11' and not os.environ.get('SELFTEST_KANI'):
